@@ -72,6 +72,13 @@ def work(job):
             if not inject_error(ch, rng, dm): mode = 'plain'
             else: xml = render_fail(ch, dm)
         if mode == 'invoke': add_invokes(ch, rng, dm)
+        if mode == 'delayed':
+            # events that reach the internal queue from the timer thread while the session is idle (delayed #_internal send, error.communication
+            # for a delayed send that cannot be delivered): their macrosteps need a stable notice like any other
+            first = ch.root.states()[0] if not ch.root.initial_attr else ch.by_id[ch.root.initial_attr[0]]
+            first.onentry.insert(0, [('xml', '<send event="i1" delay="%dms" target="#_internal"/>' % rng.randint(20, 60)),
+                                     ('xml', '<send event="e2" delay="%dms"/>' % rng.randint(20, 90)),
+                                     ('xml', '<send event="lost" delay="%dms" target="#_nosuchinvoke"/>' % rng.randint(20, 90))][:rng.randint(1, 3)])
         if xml is None: xml = C.render(ch, dm)
         for eng in ('large', 'fast'):
             jid = '%s:%s' % (cid, eng)
@@ -82,7 +89,7 @@ def work(job):
                 ops = ['step0'] * k + ['recv ' + rng.choice(['e1', 'e2', 'e3'])] + ['step0'] * mid + ['cancel'] + ['step0'] * 12
                 jobs.append((jid, T.job_text(jid, eng, xml, ops=ops, flags=['novars'])))
             else:
-                jobs.append((jid, T.job_text(jid, eng, xml, h, flags=['novars'])))
+                jobs.append((jid, T.job_text(jid, eng, xml, h, flags=['novars'] + (['drain'] if mode == 'delayed' else []))))
             meta[jid] = (cid, eng, dm, mode, xml, h)
     raw = T.run_jobs(binary, jobs)
     out = []
@@ -126,7 +133,7 @@ def main(tier, replay):
     cases = []
     for i in range(n):
         dm = ('lua', 'promela', 'null')[i % 3] if i % 7 else 'null'
-        mode = ('plain', 'error', 'plain', 'cancel', 'error', 'invoke')[i % 6]
+        mode = ('plain', 'error', 'plain', 'cancel', 'error', 'invoke', 'delayed')[i % 7]
         cases.append(('c%d' % i, base + i, dm, mode))
     jobs = [(binary, cases[i:i + 30]) for i in range(0, len(cases), 30)]
     verd = collections.Counter(); tot = collections.Counter()
@@ -153,7 +160,7 @@ def main(tier, replay):
     chk.rule = ('each run = (document, history or API script, engine); all callbacks recorded through InterpreterMonitor are fed to a push-down protocol checker: balanced before/after, '
                 'micro-step phases exits->transitions->entries, nothing outside brackets except event processing/invocation/stable/completion, content inside the bracket of its owner, '
                 'configuration after a micro step explained by reported exits and entries, each log line inside its <log> bracket, exactly one stable notice per macrostep. '
-                'Modes: plain, failing element injected (error path), cancel script, states with inline invoked sessions (invocation brackets, finalize, autoforward). distinct_nontrivial = runs with more than one micro step.')
+                'Modes: plain, failing element injected (error path), cancel script, states with inline invoked sessions (invocation brackets, finalize, autoforward), delayed sends whose events arrive from the timer thread while the session is idle (blocking steps). distinct_nontrivial = runs with more than one micro step.')
     chk.assumptions = ['"executed" is observed through logs/configuration/events only', 'the final exit on completion is reported by the Completion bracket alone (test-lifecycle convention)']
     chk.min_distinct = 100
     chk.finish()
